@@ -594,9 +594,8 @@ where
 {
     fn extend<T: IntoIterator<Item = (I, P)>>(&mut self, iter: T) {
         for (item, priority) in iter {
-            if self.map.contains_key(&item) {
-                let (_, old_item, old_priority) = self.map.get_full_mut2(&item).unwrap();
-                *old_item = item;
+            if let Some(old_priority) = self.map.get_mut(&item) {
+                // like `push`: the stored item stays, only its priority changes
                 *old_priority = priority;
             } else {
                 self.map.insert(item, priority);
